@@ -469,6 +469,14 @@ def cascade(b):
         run(layered, "complex_compliances_changed", mk_world, dict(collapse_tidal_modes=fl), f"collapse={int(fl)}", [("tides.complex_compliances_changed", fl)],
             "ensures (world has a tides model) the tides model is told that complex compliances changed, with the caller's collapse flag")
 
+    # last link: the layered tides model collapses the modes when (and only when) the caller's flag says so
+    try:
+        ltides = ClassModel("LayeredTides", "TidalPy/tides/methods/layered.py", bases=[ClassModel("TidesBase", FT)])
+        for fl in (True, False):
+            run(ltides, "complex_compliances_changed", lambda rec: Obj(ltides, collapse_modes=spy(rec, "self.collapse_modes"), name="tides"), dict(collapse_tidal_modes=fl), f"collapse={int(fl)}",
+                [("self.collapse_modes", None)] if fl else [], "ensures the modes are collapsed iff collapse_tidal_modes is true (a frequency update passes False per layer and collapses once at the end)")
+    except ExtractError as e:
+        b.subset_exits.append(str(e))
     # entry links: the layer's temperature / pressure / strength setters start the cascade
     Tn, Pn, eta_n, mu_n = R("T_given"), R("P_given"), R("eta_given"), R("mu_given")
 
